@@ -299,6 +299,38 @@ class Ctx:
         return self.driver
 
 
+def run_demo(ctx, name, args, fp, what, env_extra=None, timeout=3000):
+    """run a correspondence script of harness/demos as a sub-process (its own interpreter: several of them patch library
+    modules) against the freshly built driver. Exit 0 = model and implementation agree on everything it generated (its counts go
+    into the evidence); any other exit = disagreement, reported with the script's own description of the failing case."""
+    script = os.path.join(VERIF, 'harness', 'demos', name)
+    env = dict(os.environ, PYTHONPATH=f'{REPO}:{VERIF}:' + os.environ.get('PYTHONPATH', ''),
+               DEEPROB_DRIVER=os.path.join(LEAN, '.lake', 'build', 'bin', 'driver'), **(env_extra or {}))
+    cmd = [sys.executable, script] + [str(a) for a in args]
+    try:
+        r = subprocess.run(cmd, cwd=VERIF, env=env, stdout=subprocess.PIPE, stderr=subprocess.STDOUT, text=True, timeout=timeout)
+    except subprocess.TimeoutExpired:
+        raise Infra(f'{name} timed out')
+    out = r.stdout
+    ctx.count(f'demo:{name}:runs')
+    ctx.extra.setdefault('demos', {})[name] = dict(args=[str(a) for a in args], rc=r.returncode, tail=out[-1500:])
+    ctx.case(f'demo:{name}', nontrivial_key=f'{name}:{args}', sample=dict(script=name, args=[str(a) for a in args], output_tail=out[-600:]))
+    if r.returncode != 0:
+        lines = [l for l in out.splitlines() if l.strip()]
+        ctx.violation(fp, f'{what}: ' + ' | '.join(lines[-6:])[:900],
+                      replay=dict(kind='demo', script=name, args=[str(a) for a in args], env=env_extra or {}, output_tail=out[-3000:]))
+        return False
+    return True
+
+
+def replay_demo(r):
+    script = os.path.join(VERIF, 'harness', 'demos', r['script'])
+    env = dict(os.environ, PYTHONPATH=f'{REPO}:{VERIF}:' + os.environ.get('PYTHONPATH', ''),
+               DEEPROB_DRIVER=os.path.join(LEAN, '.lake', 'build', 'bin', 'driver'), **r.get('env', {}))
+    p = subprocess.run([sys.executable, script] + r['args'], cwd=VERIF, env=env)
+    return p.returncode == 0
+
+
 def hash_str(s):
     return int(hashlib.sha256(s.encode()).hexdigest()[:12], 16)
 
